@@ -366,7 +366,7 @@ func init() {
 			W: map[string]int{
 				"app": 8, "ins": 6, "set": 6, "rem": 7, "appN": 8, "remN": 4, "pop": 1,
 				"mset": 12, "mrem": 8, "msetN": 8, "mremN": 3, "mpop": 1,
-				"reopen": 2, "commit": 1, "evict": 1, "reget": 1, "grow": 1, "mgrow": 1,
+				"reopen": 2, "commit": 1, "evict": 1, "reget": 1, "grow": 1, "mgrow": 1, "shrink": 1, "mshrink": 1,
 			},
 			Roots: [][]RootSpec{
 				{{K: "arr", Addr: 1, TI: 1}},
